@@ -83,8 +83,8 @@ mut("C08-java-group-order-by-address", "java/genjava.c",
 
 # ---------------------------------------------------------------- C13 -------
 mut("C13-no-undo-after-tinfer-error", "axlcomp.c",
-    "	compPhaseTInfer (finfo, stab, ab);\n	if (comsgErrorCount())	{\n		if (fintMode == FINT_LOOP) scoSetUndoState();\n		return ab;",
-    "	compPhaseTInfer (finfo, stab, ab);\n	if (comsgErrorCount())	{\n		return ab;")
+    "	compPhaseTInfer (finfo, stab, ab);\n	if (comsgErrorCount())	{\n		if (fintMode == FINT_LOOP) {\n			scoSetUndoState();",
+    "	compPhaseTInfer (finfo, stab, ab);\n	if (comsgErrorCount())	{\n		if (fintMode == FINT_LOOP) {")
 mut("C13-revert-verbose-stdout-fix", "fintphase.c",
     "	else if (stabGetMeanings(stab, ablogFalse(), ssymTheStdout) == listNil(Syme))",
     "	else if (false)")
@@ -126,6 +126,21 @@ mut("C18-revert-main-name-fix", "emit.c",
     "")
 mut("C18-revert-file-id-restore", "axlcomp.c",
     "	emitSetFileIdName(fileId);", "	(void) fileId;")
+
+
+mut("C10-revert-pgcount-width", "store.c",
+    "	int		pgCount;	/* Number of pages in section. */", "	short		pgCount;	/* Number of pages in section. */")
+mut("C17-revert-archive-header-without-data", "archive.c",
+    "	if (!arSeek(ar, arPosition(ar)) && size > 0)\n		/* A header that promises data at the very end of the file. */\n		comsgError(NULL, ALDOR_E_ArTruncated, arToString(ar));",
+    "	arSeek(ar, arPosition(ar));")
+mut("C17-revert-first-error-count", "comsg.c",
+    "	comsgInit();\n	nErrors++;\n	comsg = comsgVDo(COMSG_ERROR, ab, msg, argp);", "	nErrors++;\n	comsg = comsgVDo(COMSG_ERROR, ab, msg, argp);")
+mut("C13-revert-comment-brackets-fix", "scan.c",
+    "	  (line[i] == '+' && line[i+1] == '+'))\n	break;", "	  (line[i] == '+' && line[i+1] == '+'))\n	{}")
+mut("C13-revert-local-macro-pop", "macex.c",
+    "popMacScope(MacDefScope mds)\n{\n	while", "popMacScope(MacDefScope mds)\n{\n	if (fintMode == FINT_LOOP) return;\n\n	while")
+mut("C13-revert-macro-undo", "macex.c",
+    "		if (macexUndoState)\n", "		if (false)\n")
 
 
 def main():
